@@ -143,6 +143,24 @@ func WaitUntil(d time.Duration, cond func() bool) bool {
 	}
 }
 
+// WaitProgress polls done until it is true; it gives up only when the progress counter has not moved for
+// the idle duration (a slow run is not a stuck run).
+func WaitProgress(idle time.Duration, done func() bool, progress func() int64) bool {
+	last := progress()
+	lastAt := time.Now()
+	for {
+		if done() {
+			return true
+		}
+		if p := progress(); p != last {
+			last, lastAt = p, time.Now()
+		} else if time.Since(lastAt) > idle {
+			return done()
+		}
+		time.Sleep(200 * time.Microsecond)
+	}
+}
+
 // CPUTime returns the process CPU time (user+system).
 func CPUTime() time.Duration {
 	var ru syscall.Rusage
